@@ -1240,6 +1240,14 @@ func (cfg *Config) glob(base, pat string) ([]string, error) {
 		if err != nil {
 			return nil, err
 		}
+		if !cfg.DotGlob && !strings.HasPrefix(part, ".") && !strings.HasPrefix(part, `\.`) {
+			// Like Bash, a leading period must be matched by a literal period
+			// at the start of the pattern; "?", "[.]" and "*." cannot match it.
+			inner := matcher
+			matcher = func(name string) bool {
+				return !strings.HasPrefix(name, ".") && inner(name)
+			}
+		}
 		var newMatches []string
 		for _, dir := range matches {
 			newMatches, err = cfg.globDir(base, dir, matcher, wantDir, newMatches)
